@@ -11,9 +11,13 @@ THEOREMS = [
     'OpenHTF.Exec.c03_no_entry_no_teardown',
     'OpenHTF.Exec.c03_before_successors',
     'OpenHTF.Exec.c03_teardown_events_after_main',
+    'OpenHTF.Abort.c03_single_abort_never_cancels_teardown',
+    'OpenHTF.Abort.c03_teardown_runs_with_clear_stop_flag',
 ]
-PENDING = ['single operator abort at any moment: interleaving model (lean/OpenHTF/Model/ExecAbort.lean) and controlled '
-           'scheduler tie']
+PENDING = ['a single theorem joining the two layers (tree traversal x abort interleaving) - today the sequential theorems '
+           'hold for every behaviour oracle (a killed phase is one), the interleaving theorems for every executor action '
+           'sequence respecting the program order, and the conformance of the real executor to that order is checked on '
+           'every scheduled trace']
 RULE = ('group-centred programs: every main ending (continue, exception, STOP, timeout, FAIL_SUBTEST, FAIL_AND_CONTINUE, '
         'nested group with terminal main/teardown) x setup ending x teardown content (plain, terminal first node, nested '
         'group, branch, subtest) x context (top level, in subtest, in failed subtest, in a teardown, in a branch); plus the '
@@ -25,11 +29,17 @@ PROCS = 12
 
 
 def run_real(case):
+  if case.get('abort') is not None:
+    from harness.props import c04
+    return c04.run_real(case['abort'])
   out = ec.run_test_case(case)
   return {'tokens': ec.core_tokens(out['tokens'])}
 
 
 def encode(case, obs):
+  if case.get('abort') is not None:
+    from harness.props import c04
+    return c04.encode(case['abort'], obs)
   return 'C03 %s # %s' % (ec.clean(ec.enc_test(case)), ' '.join(obs['tokens']))
 
 
@@ -38,11 +48,32 @@ def classify(case, obs):
 
 
 def nontrivial_key(case, obs):
+  if case.get('abort') is not None:
+    from harness.props import c04
+    return c04.nontrivial_key(case['abort'], obs)
   return ec.clean(ec.enc_test(case))
 
 
+def _abort_cases(rng, tier):
+  """a single operator abort at every scheduling step of group programs (real threads under the cooperative
+  scheduler; judged by the C04 driver: teardown of entered groups runs, is not cancelled, precedes plug tearDown)"""
+  from harness.props import c04
+  out = []
+  for name in ('group', 'nested', 'subtest', 'plugs', 'tdrepeat'):
+    n = c04._length(name, 'thread')
+    stride = 3 if tier == 'quick' else 1
+    for k in range(0, n + 3, stride):
+      out.append({'abort': {'prog': name, 'ks': [k], 'mode': 'thread'}, 'src': 'abort/' + name})
+  for i in range(60 if tier == 'quick' else 1500):
+    r = rng.derive('ab%d' % i)
+    name = r.choice(['group', 'nested', 'subtest', 'plugs', 'tdrepeat'])
+    out.append({'abort': {'prog': name, 'ks': [r.randrange(0, c04._length(name, 'thread'))], 'mode': 'thread',
+                          'rseed': r.getrandbits(32), 'switch': r.choice([0.1, 0.3])}, 'src': 'abort-random/' + name})
+  return out
+
+
 def gen_cases(rng, tier):
-  cases = []
+  cases = _abort_cases(rng, tier)
   P = lambda raw: {'t': 'P', 'id': 0, 'opts': {}, 'beh': [{'raw': raw}]}
   G = lambda s, m, td: {'t': 'G', 's': s, 'm': m, 'td': td}
   ok = P('cont')
@@ -97,7 +128,10 @@ def gen_cases(rng, tier):
   return cases
 
 
-shrink = trees.shrink
+def shrink(case):
+  if case.get('abort') is not None:
+    return []
+  return trees.shrink(case)
 
 
 def known_match(entry, case, obs, msg):
@@ -112,7 +146,9 @@ MANIFEST = {
             'ran); a terminal setup means neither main nor teardown; successors start from the state the teardown left; '
             'teardown events come after main events in the call log. Tie: real Test.execute() on a group-centred family '
             '(every main/setup/teardown ending x context) and focused random trees.',
-    'note': 'Trusted: Lean kernel + standard axioms; harness; Lean driver. PARTIAL: the "single operator abort at any '
-            'moment" clause is carried by the interleaving model and the controlled scheduler (see pending_statements in '
-            'the evidence until that part is registered).',
+    'note': 'Trusted: Lean kernel + standard axioms; harness (incl. harness/sched.py for the abort runs); Lean driver. The '
+            '"single operator abort at any moment" clause: theorem c03_single_abort_never_cancels_teardown over the '
+            'interleaving model of Model/Abort.lean (every interleaving; see C04), tied by real runs with one abort at '
+            'every scheduling step of group programs. PARTIAL: the two layers (tree traversal, abort interleaving) are '
+            'joined by the conformance check of the real executor\'s action order, not by one theorem.',
 }
